@@ -57,3 +57,46 @@ Print Assumptions C02_randint_is_documented_range.
 Theorem C02_randrange_misses_upper_bound : forall a b, a <= b -> ~ randrange_results a b b.
 Proof. exact randrange_misses_upper_bound. Qed.
 Print Assumptions C02_randrange_misses_upper_bound.
+
+(* ---- the stack-machine lemma (Lang/ExprCompile.v): for every call-free numeric expression tree of
+   any size, in any machine state and wherever the code sits, the emitted code runs silently,
+   changes nothing but the evaluation stack and the pc, and pushes the value of the tree ---- *)
+From Bardolph Require Import Lang.Instr Lang.Loader Lang.World Lang.Regs Lang.Machine Lang.Sem Lang.CodeGen Lang.ExprCompile.
+
+Theorem C02_expression_code_pushes_value :
+  forall rt mt e, supported mt e = true ->
+  forall im s v, code_at im (m_pc s) (c_expr rt mt e) -> peval mt (rd_vm s) (rg_vm s) e = Ok v ->
+  exists n, steps n im s = Some (pushed s v (zlength (c_expr rt mt e))).
+Proof. exact c_expr_pushes_value. Qed.
+Print Assumptions C02_expression_code_pushes_value.
+
+(* the reference semantics computes that same tree value, leaving its state unchanged *)
+Theorem C02_semantics_is_tree_value :
+  forall rt mt e, supported mt e = true ->
+  forall fuel in_matrix ss, (height e <= fuel)%nat ->
+  eval_expr rt mt fuel in_matrix ss e = lift_res (peval mt (rd_sem ss) (rg_sem ss) e) ss.
+Proof. exact eval_expr_is_peval. Qed.
+Print Assumptions C02_semantics_is_tree_value.
+
+Theorem C02_expression_code_computes_the_tree :
+  forall rt mt e, supported mt e = true ->
+  forall im s ss v fuel in_matrix,
+    (forall x, rd_vm s x = lookup ss x) ->
+    (forall r, register_eqb r R_PC = false -> rg_vm s r = Ok (rreg (s_regs ss) r)) ->
+    code_at im (m_pc s) (c_expr rt mt e) -> (height e <= fuel)%nat ->
+    eval_expr rt mt fuel in_matrix ss e = ROk v ss ->
+    exists n, steps n im s = Some (pushed s v (zlength (c_expr rt mt e))).
+Proof. exact expression_code_computes_the_tree. Qed.
+Print Assumptions C02_expression_code_computes_the_tree.
+
+(* and the whole-run function of the machine model takes exactly those steps *)
+Theorem C02_run_takes_those_steps :
+  forall n im s s' f acc, steps n im s = Some s' -> run_from (n + f) im s acc = run_from f im s' acc.
+Proof. exact run_from_steps. Qed.
+Print Assumptions C02_run_takes_those_steps.
+
+(* the hypotheses are satisfiable: 10 - 2 * 3 - 4 groups as (10 - (2 * 3)) - 4 and is 0 *)
+Example C02_stack_lemma_nonvacuous :
+  let e := EBin BSub (EBin BSub (ELit (LInt 10)) (EBin BMul (ELit (LInt 2)) (ELit (LInt 3)))) (ELit (LInt 4)) in
+  supported [] e = true /\ peval [] (fun _ => VNone) (fun _ => Ok VNone) e = Ok (VInt 0).
+Proof. split; reflexivity. Qed.
